@@ -1236,7 +1236,8 @@ package bpmn
 //@   count(Trace, CeaseProcessSetTrace) == old(count(Trace, CeaseProcessSetTrace)) && count(Trace, CeaseFlowTrace) == old(count(Trace, CeaseFlowTrace)) &&
 //@   count(Spawn, code("(*ProcessSet).tracerProcess")) == old(count(Spawn, code("(*ProcessSet).tracerProcess"))) &&
 //@   count(Spawn, code("(*ProcessSet).run")) == old(count(Spawn, code("(*ProcessSet).run"))) &&
-//@   count(Spawn, code("(*ProcessSet).tracerProcess$1")) == old(count(Spawn, code("(*ProcessSet).tracerProcess$1")))
+//@   count(Spawn, code("(*ProcessSet).tracerProcess$1")) == old(count(Spawn, code("(*ProcessSet).tracerProcess$1"))) &&
+//@   count(Send, flowAction) == old(count(Send, flowAction))
 
 //@ spec func noMonitorStarted() bool =
 //@   count(Spawn, code("(*Process).ceaseFlowMonitor$1")) == old(count(Spawn, code("(*Process).ceaseFlowMonitor$1")))
@@ -1380,3 +1381,38 @@ package bpmn
 //@   prop C07 C12
 //@   loop 1 for
 //@     cancels ctx
+
+// Starting the inner flow of a sub-process contributes only calls, the start events' goroutines and their start
+// messages to the activation's log.
+//@ spec func subStartFrame() bool =
+//@   startFrame() && noMonitorStarted()
+//@ func (*subProcess).startWith
+//@   prop C12
+//@   ensures subStartFrame()
+//@ func (*subProcess).startAll
+//@   prop C12
+//@   ensures subStartFrame()
+//@   loop 1 range *sp.element.StartEvents()
+//@     invariant subStartFrame()
+//@   loop 2 range *sp.element.IntermediateThrowEvents()
+//@     invariant subStartFrame()
+
+// One activation of an embedded sub-process (the goroutine serving the parent's token): the inner flow is started;
+// inner traces are relayed to the enclosing scope — but never the inner cease-flow trace, which would make an
+// enclosing sub-process believe that its own flow ended; the relay ends only on the inner cease-flow trace; then the
+// parent's token is answered exactly once with all outgoing flows.  Without an answer the activation ends only because
+// the inner flow could not be started or the context ended — not because an inner activity reported an error.
+//@ func (*subProcess).run$1
+//@   prop C12 C07
+//@   requires sp.wr != nil
+//@   ensures [at-most-one-answer] count(Send, flowAction) <= old(count(Send, flowAction)) + 1
+//@   ensures [the-inner-cease-flow-trace-stays-inside] count(Trace, CeaseFlowTrace) == old(count(Trace, CeaseFlowTrace))
+//@   ensures [no-answer-only-after-a-failed-start-or-a-cancellation] count(Send, flowAction) == old(count(Send, flowAction)) ==>
+//@             unchangedKind(Recv) || countOn(Recv, ctxdone(ctx)) == old(countOn(Recv, ctxdone(ctx))) + 1
+//@   loop 1 for
+//@     invariant sp.wr != nil && sp.wr == old(sp.wr) && count(Send, flowAction) == old(count(Send, flowAction)) &&
+//@               count(Trace, CeaseFlowTrace) == old(count(Trace, CeaseFlowTrace)) &&
+//@               countOn(Recv, ctxdone(ctx)) == old(countOn(Recv, ctxdone(ctx)))
+//@     exit ensures [the-relay-ends-only-on-the-inner-cease-flow-trace-and-the-parent-is-answered-only-afterwards] is(trace, CeaseFlowTrace) &&
+//@               count(Send, flowAction) == old(count(Send, flowAction)) &&
+//@               count(Trace, CeaseFlowTrace) == old(count(Trace, CeaseFlowTrace)) && countOn(Recv, ctxdone(ctx)) == old(countOn(Recv, ctxdone(ctx)))
